@@ -106,3 +106,50 @@ fn c16_get_byte_field() {
     kani::cover!(len == 3 && want.is_err() && b[0] == b'2' && b[1] == b'5' && b[2] == b'6', "256 rejected");
     kani::cover!(matches!(want, Ok(None)), "star");
 }
+
+/// `WildcardIPv4::from_str` on a string whose SHAPE (where the dots are) is fixed by the call site and whose field
+/// bytes are symbolic. With symbolic dot positions `str::split` made the query run > 15 min (design-phase probe);
+/// with a concrete shape it is a handful of one-byte fields.
+fn parse_shape<const L: usize>(shape: &[u8; L], expect_four_fields: bool) {
+    // '#' in the shape = one symbolic field byte drawn from {'*', '0'..'9', 'x'}; anything else is literal
+    let mut bytes = [0u8; L];
+    let mut all_fields_valid = true;
+    let mut i = 0;
+    while i < L {
+        if shape[i] == b'#' {
+            let c: u8 = kani::any();
+            kani::assume(c == b'*' || (c >= b'0' && c <= b'9') || c == b'x');
+            if c == b'x' {
+                all_fields_valid = false;
+            }
+            bytes[i] = c;
+        } else {
+            bytes[i] = shape[i];
+        }
+        i += 1;
+    }
+    let s = core::str::from_utf8(&bytes).unwrap();
+    let got = s.parse::<WildcardIPv4>();
+    let want_ok = expect_four_fields && all_fields_valid;
+    assert!(got.is_ok() == want_ok, "[C16] a wildcard string is accepted iff it is exactly four dot-separated fields of '*' or a number 0-255");
+    if let Ok(w) = got {
+        // single-byte fields: '*' -> None, digit -> Some(digit)
+        let f = |c: u8| if c == b'*' { None } else { Some(c - b'0') };
+        assert!(w.b3 == f(bytes[0]) && w.b2 == f(bytes[2]) && w.b1 == f(bytes[4]) && w.b0 == f(bytes[6]), "[C16] fields are taken most significant first");
+    }
+}
+
+// ATTEMPTED AND INTRACTABLE (unregistered): `str::split('.')` + `str::parse::<u8>` even with CONCRETE dot positions.
+// Measured: ten shapes - time-out at 900 s; two shapes - symex 433 s, then out of memory. The split / arity logic of
+// `WildcardIPv4::from_str` therefore stays NOT decided (seeded change C16-1, a trailing dot accepted, is missed).
+//@ props: ZZ
+//@ timeout: 900
+#[kani::proof]
+#[kani::unwind(12)]
+fn zz16_from_str_two_shapes() {
+    if kani::any() {
+        parse_shape(b"#.#.#.#", true);
+    } else {
+        parse_shape(b"#.#.#.#.", false);
+    }
+}
